@@ -9,6 +9,10 @@ CHECKS = {
          "Generated tables covering every content class, null pattern and batch representation named in the property, ingested through the native, wire and CSV paths and compared cell by cell (bit-exact) with an independent model before flush, after flush and after reopen/evict. Sampling, not proof: bounded by case count and table size.",
          "DESIGN.md 4 C01", "Trusts the harness's own model of a batch (ColRep::cells) and the public client types; type-mixing columns judged by the documented degradation only.",
          "property-based testing (proptest) against a reference model; round-trip oracle"),
+ "C03": ("exploration",
+         "Generated tables and predicate trees (depth <= 3, constants drawn inside, at the edges of and outside each column's range and encoding, strings present in / absent from the dictionary) judged by an independent three-valued-logic evaluator; rows must match exactly and in order. Classes the unchanged engine gets wrong are listed as known findings, excluded by construction and counted.",
+         "DESIGN.md 4 C03", "Reference evaluator (eval.rs) is the trusted base; int-vs-float compares convert the int to f64; queries whose AND/OR sees a NULL operand are not judged while KF-connective-null is open.",
+         "property-based testing (proptest) with a reference evaluator (differential oracle)"),
 }
 
 NOT_YET = {
